@@ -514,6 +514,16 @@ func requiredOnEmptyObject(doc any, msg string) bool {
 		cur := doc
 		ok := true
 		for _, step := range strings.Split(strings.TrimSpace(line[:i]), ".") {
+			if arr, isArr := cur.([]any); isArr {
+				idx := -1
+				fmt.Sscanf(step, "%d", &idx)
+				if idx < 0 || idx >= len(arr) {
+					ok = false
+					break
+				}
+				cur = arr[idx]
+				continue
+			}
 			obj, isObj := cur.(map[string]any)
 			if !isObj {
 				ok = false
@@ -526,8 +536,12 @@ func requiredOnEmptyObject(doc any, msg string) bool {
 			}
 			cur = next
 		}
-		if obj, isObj := cur.(map[string]any); ok && isObj && len(obj) == 0 {
-			return true
+		if obj, isObj := cur.(map[string]any); ok && isObj {
+			// empty, or holding only the undeclared member the mutator adds (dropped on decode)
+			_, unk := obj["zzUnknownProp"]
+			if len(obj) == 0 || (len(obj) == 1 && unk) {
+				return true
+			}
 		}
 	}
 	return false
